@@ -318,6 +318,18 @@ func (s *St) exec(call string) (rcall string, res string) {
 			return call, "err"
 		}
 		return call, errOr(s.db.Merge(), "ok")
+	case "mergefault": // mergefault <event index> <partial bytes|-1>: Merge with an injected I/O error
+		if s.db == nil {
+			return "merge", "err"
+		}
+		s.faultAt, s.faultPartial, s.evCount, s.faultOp, s.datWrites = atoi(a[0]), atoi(a[1]), 0, "", 0
+		err := s.db.Merge()
+		fired := s.faultOp != ""
+		s.faultAt = 0
+		if !fired {
+			return "merge", errOr(err, "ok")
+		}
+		return fmt.Sprintf("mergefault %d %s", s.datWrites, s.faultOp), errOr(err, "ok")
 	case "backup":
 		if s.db == nil {
 			return call, "err"
